@@ -7,7 +7,7 @@ BOUNDS = {
 }
 ASSUMPTIONS = [
     "reflect.Type/reflect.Value are the engine's go/types-backed environment model (engine/reflect.go)",
-    "Outside: wider integers (strconv digit generation on wide symbolic integers), floats, time values and formats, generated type universes, omitzero/omitempty fixed points",
+    "decimal formatting of symbolic integers is a contract stub (digit bytes constrained to denote the value, fork on sign and digit count)", "Outside: floats, time values and formats, generated type universes, omitzero/omitempty fixed points",
 ]
 
 
@@ -19,4 +19,9 @@ def obligations(tier):
             for st in (False, True):
                 for det in ((False,) if (q and st) else (False, True)):
                     L.append(ob("roundtrip/shape=%d/str=%d/stringify=%d/det=%d" % (shape, sl, st, det), ".", "VerifC04RoundTrip", [shape, sl, st, det], covers=["decoded"], max_seconds=900))
+    for part in range(4):
+        for st in (False, True):
+            if q and st and part != 0:
+                continue
+            L.append(ob("wide/part=%d/stringify=%d" % (part, st), ".", "VerifC04Wide", [part, st], covers=["decoded"], timeout_ms=120000, max_seconds=1200))
     return L
